@@ -432,6 +432,22 @@ def search(ctx, reasons):
     return res
 
 
+def regenerate(ctx):
+    """translator step: rebuild lean/TenpyModel/Gen/C19Pairs.lean from the lattice.py of the tree under test"""
+    import importlib.util
+    spec = importlib.util.spec_from_file_location('gen_C19', str(core.ROOT / 'tools' / 'gen_C19.py'))
+    gen = importlib.util.module_from_spec(spec)
+    spec.loader.exec_module(gen)
+    text, problems = gen.generate(ctx.repo)
+    if problems:
+        return problems
+    out = core.LEAN_DIR / 'TenpyModel' / 'Gen' / 'C19Pairs.lean'
+    out.parent.mkdir(parents=True, exist_ok=True)
+    if not out.exists() or out.read_text() != text:
+        out.write_text(text)
+    return []
+
+
 def replay(ctx, payload):
     case = payload.get('case') or {}
     if case.get('part') == 'pairs':
